@@ -7,6 +7,7 @@ import (
 	"math/rand"
 	"os"
 	"sync"
+	"sync/atomic"
 	"time"
 
 	"github.com/tonistiigi/fsutil/types"
@@ -57,10 +58,19 @@ func PuppetReceiver(sc RecvScript) func(conn *hstream.Conn) error {
 		}
 		reqCh := make(chan uint32, 100000)
 		done := make(chan struct{})
+		// burst: after the end marker nothing is read until every request is out (or requesting makes no headway:
+		// a conforming sender applies back-pressure, it does not fail)
+		var paused int32
+		resume := make(chan struct{})
+		var resumeOnce sync.Once
+		resumeReads := func() { resumeOnce.Do(func() { atomic.StoreInt32(&paused, 0); close(resume) }) }
 		// reader
 		go func() {
 			defer close(done)
 			for {
+				if atomic.LoadInt32(&paused) == 1 {
+					<-resume
+				}
 				var p types.Packet
 				if err := ep.RecvMsg(&p); err != nil {
 					mu.Lock()
@@ -74,6 +84,9 @@ func PuppetReceiver(sc RecvScript) func(conn *hstream.Conn) error {
 				case types.PACKET_STAT:
 					if p.Stat == nil {
 						endSeen = true
+						if sc.Kind == "burst" {
+							atomic.StoreInt32(&paused, 1)
+						}
 					} else {
 						m := os.FileMode(p.Stat.Mode)
 						// every regular file of the STAT sequence may be requested, hard-link members included
@@ -149,13 +162,35 @@ func PuppetReceiver(sc RecvScript) func(conn *hstream.Conn) error {
 			}
 			reqOrder = ids
 			mu.Unlock()
+			var sent int32
+			if sc.Kind == "burst" {
+				go func() {
+					last, idle := int32(-1), 0
+					for {
+						time.Sleep(50 * time.Millisecond)
+						cur := atomic.LoadInt32(&sent)
+						if cur == last {
+							idle++
+						} else {
+							last, idle = cur, 0
+						}
+						if idle >= 3 || int(cur) >= len(ids) {
+							resumeReads()
+							return
+						}
+					}
+				}()
+			}
 			for _, id := range ids {
 				if err := send(&types.Packet{Type: types.PACKET_REQ, ID: id}); err != nil {
 					sendErr = err
 					break
 				}
+				atomic.AddInt32(&sent, 1)
 			}
+			resumeReads()
 		}
+		resumeReads()
 		// deliberately invalid request
 		if sendErr == nil && sc.Bad != "" {
 			mu.Lock()
